@@ -221,3 +221,28 @@ Proof.
       destruct (unn_names seen pos names) as [ds' seen']. cbn [fst snd]. rewrite IH. now rewrite <- app_assoc. }
   specialize (H (f_defs f) [] []). destruct (lint_for body (f_defs f) ([], [])) as [ds ids]. cbn in H. now subst.
 Qed.
+
+(* ---- requireddefinitions: counts per dynamic type, first missing required kind reported, then break ---- *)
+Lemma kind_eqb_eq : forall a b, kind_eqb a b = true -> a = b.
+Proof. destruct a, b; cbn; intros H; try reflexivity; discriminate. Qed.
+
+Lemma count_fold : forall (body : def -> list (def_kind * Z) -> ctl (list (def_kind * Z))),
+  (forall d m, body d m = Next (map_inc_kind (kind_of d) m)) ->
+  forall k l m, map_getd_kind k (lint_for body l m) = count_kind k l + map_getd_kind k m.
+Proof.
+  intros body H k l; induction l as [|d l IH]; intros m; cbn [lint_for count_kind]; [reflexivity|].
+  rewrite H, IH. unfold map_inc_kind; cbn [map_getd_kind].
+  replace (kind_eqb k (kind_of d)) with (kind_eqb (kind_of d) k) by (unfold kind_eqb; apply Z.eqb_sym).
+  destruct (kind_eqb (kind_of d) k) eqn:E; [apply kind_eqb_eq in E; subst|]; lia.
+Qed.
+
+Lemma TL_requireddefinitions_run_eq : forall f, LintTranslated.requireddefinitions_run f = Lint.requireddefinitions_run f.
+Proof.
+  intros f. unfold LintTranslated.requireddefinitions_run, Lint.requireddefinitions_run. cbv zeta.
+  unfold h_requireddefinitions_requiredDefinitions, required_kinds.
+  cbn [lint_for required_loop kind_of zero_BitTimingDef zero_NodesDef].
+  rewrite !(count_fold _ (fun d m => eq_refl)). cbn [map_getd_kind]. rewrite !Z.add_0_r.
+  destruct (count_kind KBitTiming (f_defs f) =? 0); [destruct (f_defs f); norm_msg; reflexivity|].
+  destruct (count_kind KNodes (f_defs f) =? 0); [destruct (f_defs f); norm_msg; reflexivity|].
+  reflexivity.
+Qed.
